@@ -6,7 +6,7 @@ namespace CC.Driver.TreeSetD
 open CC CC.Driver
 open CC.Spec (OrdMap)
 open CC.Spec.OrdMap (Out Cursor)
-open CC.Driver.TreeTableD (cmpOf fmtPT fmtIter hdr ptStep ptAgrees)
+open CC.Driver.TreeTableD (cmpOf fmtPT fmtIter hdr ptStep ptAgrees sumPT hex16 invB)
 
 structure Sess where
   which : Nat := 0
@@ -20,23 +20,32 @@ structure Sess where
   /-- the pointer-level model of the wrapped table, run alongside -/
   pt  : PTree.PT := {}
   pit : Option PTree.PIter := none
+  /-- `keys=buf` / `phys=quiet`: see Driver/TreeTable.lean -/
+  buf : Bool := false
+  quiet : Bool := false
 
 def obsM (t : Option TreeSet) : String :=
   match t with
   | none => "elems=[] size=0"
   | some t => s!"elems={fmtList t.abs} size={t.size}"
 def obsS (f : Option OrdMap) : String := s!"elems={fmtList (OrdMap.keys (f.getD []))} size={(f.getD []).length}"
-def phys (s : Sess) (cmps : Nat) : String :=
+def phys (s : Sess) (cmps : Nat) (full : Bool := false) : String :=
   match s.model with
   | none => "-"
-  | some t => s!"size={t.t.size} cmps={cmps} it={fmtIter t.t.root s.pt s.pit s.iter} tree={fmtPT s.pt.heap (s.pt.size + 1) s.pt.root}"
+  | some t =>
+    let tree := if s.quiet && !full then s!"tree#={hex16 (sumPT s.pt.heap s.buf (s.pt.size + 1) s.pt.root 14695981039346656037)}"
+                else s!"tree={fmtPT s.pt.heap s.buf (s.pt.size + 1) s.pt.root}"
+    s!"size={t.t.size} cmps={cmps} it={fmtIter t.t.root s.pt s.pit s.iter} {tree}"
+/-- `t.Inv cmp` in linear time (see `TreeTableD.invB`) -/
+def invSetB (cmp : Nat → Nat → Int) (t : TreeSet) : Bool :=
+  invB cmp t.t && t.t.root.toList.all (fun e => e.2 == Spec.OrdSet.dummy) && decide (t.t.triple = t.triple)
 def inv (s : Sess) : Bool :=
-  match s.model with | none => true | some t => decide (t.Inv (cmpOf s.which)) && ptAgrees s.pt t.t
+  match s.model with | none => true | some t => invSetB (cmpOf s.which) t && ptAgrees s.pt t.t
 def lineS (hd : String) (s : Sess) (full : Bool := false) : String :=
   if s.sparse && !full then s!"S {hd} " else s!"S {hd} {obsS s.spec}"
 def lineM (hd : String) (s : Sess) (cmps : Nat) (full : Bool := false) : String :=
   let obs := if s.sparse && !full then "" else obsM s.model
-  s!"M {hd} {obs} | {phys s cmps} | {fmtMem s.mem} | {fmtFlags (inv s) s.mem}"
+  s!"M {hd} {obs} | {phys s cmps full} | {fmtMem s.mem} | {fmtFlags (inv s) s.mem}"
 
 def parseOp (c : Cmd) : Option Spec.OrdSet.Op :=
   match c.op with
@@ -60,7 +69,8 @@ def step (s : Sess) (c : Cmd) : Sess × String × String :=
     -- `new_default`: the library's default constructor, i.e. the C library's allocator triple
     let (st, t, m) := TreeSet.newT (if c.op == "new_default" then .libc else .conf) m
     let (sst, sp) : Stat × Option OrdMap := if c.fired > 0 then (.errAlloc, none) else (.ok, some [])
-    let s' : Sess := { which := c.nat "cmp" 0, model := t, spec := sp, mem := m, sparse := c.str "obs" == some "sparse", pt := PTree.new }
+    let s' : Sess := { which := c.nat "cmp" 0, model := t, spec := sp, mem := m, sparse := c.str "obs" == some "sparse", pt := PTree.new,
+                       buf := c.str "keys" == some "buf", quiet := c.str "phys" == some "quiet" }
     (s', lineS (fmtStat sst) s', lineM (fmtStat st) s' 0)
   | _ =>
   match s.model, s.spec with
@@ -73,7 +83,11 @@ def step (s : Sess) (c : Cmd) : Sess × String × String :=
       let pt' := ptStep cmp s.pt (Spec.OrdSet.toMapOp op) (o.st != some Stat.errAlloc)
       let s' : Sess := { s with model := some t', spec := some f', mem := m, pt := pt' }
       let cb (o : Out) := if op = .foreach then some o.log else none
-      (s', lineS (hdr so.st so.val (cb so) noout) s', lineM (hdr o.st o.val (cb o) noout) s' n)
+      -- strict successor / predecessor query with an absent element: no verdict at L1 (see Driver/TreeTable.lean)
+      let absentQuery := match op with
+        | .greaterThan k | .lesserThan k => !(OrdMap.contains f k)
+        | _ => false
+      (s', if absentQuery then "S ?" else lineS (hdr so.st so.val (cb so) noout) s', lineM (hdr o.st o.val (cb o) noout) s' n)
     | none =>
     match c.op with
     | "it_new" =>
@@ -113,7 +127,7 @@ def step (s : Sess) (c : Cmd) : Sess × String × String :=
       (s', lineS "st=-" s' true, lineM "st=-" s' 0 true)
     | "destroy" =>
       let m := t.destroy m
-      let s' : Sess := { which := s.which, mem := m, sparse := s.sparse }
+      let s' : Sess := { which := s.which, mem := m, sparse := s.sparse, buf := s.buf, quiet := s.quiet }
       (s', lineS "st=-" s', lineM "st=-" s' 0)
     | _ => (s, "S st=- badop", "M st=- badop")
   | _, _ =>
